@@ -134,8 +134,8 @@ def nearest(A, t):
 
 
 def previous(A, t):
-    i = bisect.bisect_left(A, t) - 1          # last sample strictly before t (t itself moved by the tolerance beforehand)
-    return max(i, 0)
+    i = bisect.bisect_right(A, t) - 1          # last sample at or before t: "a new time value is considered equal to an old time value if it is within
+    return max(i, 0)                            # previous_value_tol * dt of it" - also for a tolerance of 0 (finding F18: the numpy variant took the sample before)
 
 
 class Conc:
@@ -281,8 +281,6 @@ def _decide_index(E, a_v, v_v, want, also=()):
         return None, "the arrays searched are not atoms of the index expression"
     for A, ts in worlds():
         for t in ts:
-            if want is previous and t in A:
-                continue          # (exact coincidence of a searched time with a sample: the numpy and the numba definitions differ there - not decided)
             try:
                 got = Conc(dict({k: A for k in also}, **{sa: A, sv: t})).val(E)
             except OutOfRange as e:
